@@ -249,9 +249,12 @@ def run_harness(meta, prop_id, keep=False):
     must = [k for k in reach if k == 'CANARY' or not meta.get('_case_mode')]
     if 'CANARY' not in reach or any(not reach[k] for k in must):
         res['notes'].append('vacuity guard: unreachable: %s (harness end / premise unreachable: contradictory requires/assume?)' % ([k for k in must if not reach[k]] or 'no canary'))
-        res['status'] = 'error'
-        res['total_s'] = time.time() - t0
-        return res
+        # a premise that became unreachable together with failed named obligations is a behaviour change, reported
+        # through those obligations; alone it only means the run proves nothing
+        if not ('CANARY' in reach and reach['CANARY'] and any(f['cls'] in ('postcondition', 'assertion') for f in res['failed'])):
+            res['status'] = 'error'
+            res['total_s'] = time.time() - t0
+            return res
     # vacuity / completeness guards
     want_named = (ex['ens_names'].get(meta.get('enforce')) or []) if meta.get('enforce') else []
     got_post = by_class.get('postcondition', 0)
